@@ -118,6 +118,17 @@ theorem C16_empty_allowlist_rejects (n : String) : allowFn (some []) n = false :
 theorem C16_default_lockdown (ms : List Metric) : exportFacet (allowFn (some (readAllowEnv none))) false ms = none :=
   C16_lockdown _ ms (by intro n; simp [readAllowEnv, allowFn, isAllowed])
 
+/-- **C16 (the file takes precedence, also when its list is empty)**: a readable `OF_SAFE_METRICS_FILE` decides the allow-list
+whatever `OF_SAFE_METRICS` holds -/
+theorem C16_file_precedence (l : List String) (env : Option String) : readAllowlist (some l) env = l := rfl
+
+/-- **C16 (lock-down by file)**: an empty `safe_metrics` list in the file exports nothing, even with `OF_SAFE_METRICS` set -/
+theorem C16_file_lockdown (env : Option String) (ms : List Metric) :
+    exportFacet (allowFn (some (readAllowlist (some []) env))) false ms = none :=
+  C16_lockdown _ ms (by intro n; simp [readAllowlist, allowFn, isAllowed])
+
+theorem C16_no_file_is_env (env : Option String) : readAllowlist none env = readAllowEnv env := rfl
+
 /-- a name is accepted only through an entry of the list: exact or wildcard -/
 theorem C16_allowed_has_entry (l : List String) (n : String) (h : allowFn (some l) n = true) :
     n ∈ l ∨ ∃ p ∈ l, globMatch p n = true := by
